@@ -1,11 +1,1268 @@
-// Package rlpstream: stub, replaced by the component's correspondence stream.
+// Package rlpstream: C03 correspondence and monitor.
+//
+// Correspondence: random and boundary transactions of all eight types are encoded by the REAL code
+// (ctrlertypes.PreImageToSignTrxRLP, rlp.EncodeToBytes(tx)) and by the Lean model (rigodriver rlp);
+// the bytes must be identical.
+//
+// Monitor (written from the property statement, independent of the Lean model): every base
+// transaction is signed with a real secp256k1 key; ctrlertypes.VerifyTrxRLP must accept the
+// original and must reject every mutation of a signed field, of the claimed sender, of the chain id
+// and of the signature bytes (in memory and again after a protobuf Encode/Decode round trip, the
+// path DeliverTx takes); the signed bytes of the mutant must differ from the original's.
+//
+// Line protocol (one case per line, see lean/RigoDriver/Rlp.lean):
+//
+//	pre <chainHex> <tx>                                   -> hex pre-image
+//	enc <chainHex> <tx>                                   -> hex rlp (signature included)
+//	mon <kind> <keyHex> <sigmut> / <chainHex> <tx> / <chainHex> <tx>
+//	                                                      -> pre=<same|diff> fields=<same|diff> chain=<same|diff>
+//	<tx> = version time nonce from to amount gas gasPrice type sig payload...
 package rlpstream
 
-import "verifharness/internal/common"
+import (
+	"bytes"
+	"encoding/hex"
+	"fmt"
+	"math/big"
+	"strconv"
+	"strings"
 
-// Run is the stream entry point (seed, tier quick|thorough, scratch dir, rigodriver path, optional replay lines).
+	"github.com/ethereum/go-ethereum/rlp"
+	"github.com/holiman/uint256"
+	ctrlertypes "github.com/rigochain/rigo-go/ctrlers/types"
+	"github.com/rigochain/rigo-go/types/crypto"
+
+	"verifharness/internal/common"
+	"verifharness/internal/rng"
+)
+
+const sepStr = ") Signed Message:\n"
+
+// ---------------------------------------------------------------------------------------------
+// transaction description (what a line carries)
+
+type payload struct {
+	kind                    string // none unstaking voting contract setdoc withdraw proposal
+	a, b                    []byte // txhash | data | name,url | message
+	choice                  int32
+	start, period, applying int64
+	optType                 int32
+	opts                    [][]byte
+	req                     *uint256.Int
+}
+
+type spec struct {
+	chain    []byte
+	ver      uint32
+	time     int64
+	nonce    uint64
+	from, to []byte
+	amt, gp  *uint256.Int
+	gas      uint64
+	typ      int32
+	sig      []byte
+	pl       payload
+}
+
+func hx(b []byte) string {
+	if len(b) == 0 {
+		return "-"
+	}
+	return hex.EncodeToString(b)
+}
+
+func unhx(s string) ([]byte, error) {
+	if s == "-" {
+		return []byte{}, nil
+	}
+	return hex.DecodeString(s)
+}
+
+func (p *payload) tokens() []string {
+	switch p.kind {
+	case "none":
+		return []string{"none"}
+	case "unstaking":
+		return []string{"unstaking", hx(p.a)}
+	case "voting":
+		return []string{"voting", hx(p.a), strconv.FormatInt(int64(p.choice), 10)}
+	case "contract":
+		return []string{"contract", hx(p.a)}
+	case "setdoc":
+		return []string{"setdoc", hx(p.a), hx(p.b)}
+	case "withdraw":
+		return []string{"withdraw", p.req.Dec()}
+	case "proposal":
+		t := []string{"proposal", hx(p.a), strconv.FormatInt(p.start, 10), strconv.FormatInt(p.period, 10),
+			strconv.FormatInt(p.applying, 10), strconv.FormatInt(int64(p.optType), 10), strconv.Itoa(len(p.opts))}
+		for _, o := range p.opts {
+			t = append(t, hx(o))
+		}
+		return t
+	}
+	return []string{"?"}
+}
+
+// tokens of <chainHex> <tx>
+func (s *spec) tokens() []string {
+	t := []string{hx(s.chain), strconv.FormatUint(uint64(s.ver), 10), strconv.FormatInt(s.time, 10),
+		strconv.FormatUint(s.nonce, 10), hx(s.from), hx(s.to), s.amt.Dec(), strconv.FormatUint(s.gas, 10),
+		s.gp.Dec(), strconv.FormatInt(int64(s.typ), 10), hx(s.sig)}
+	return append(t, s.pl.tokens()...)
+}
+
+// signedTokens: the canonical text of every signed field (everything but chain and sig).
+func (s *spec) signedTokens() string {
+	t := s.tokens()
+	return strings.Join(append(append([]string{}, t[1:10]...), t[11:]...), " ")
+}
+
+func (s *spec) clone() *spec {
+	c := *s
+	c.chain = append([]byte{}, s.chain...)
+	c.from = append([]byte{}, s.from...)
+	c.to = append([]byte{}, s.to...)
+	c.sig = append([]byte{}, s.sig...)
+	c.amt = s.amt.Clone()
+	c.gp = s.gp.Clone()
+	c.pl.a = append([]byte{}, s.pl.a...)
+	c.pl.b = append([]byte{}, s.pl.b...)
+	if s.pl.req != nil {
+		c.pl.req = s.pl.req.Clone()
+	}
+	c.pl.opts = nil
+	for _, o := range s.pl.opts {
+		c.pl.opts = append(c.pl.opts, append([]byte{}, o...))
+	}
+	return &c
+}
+
+func parsePayload(t []string) (payload, error) {
+	bad := fmt.Errorf("bad payload %v", t)
+	if len(t) == 0 {
+		return payload{}, bad
+	}
+	p := payload{kind: t[0]}
+	var err error
+	i32 := func(s string) int32 {
+		n, e := strconv.ParseInt(s, 10, 32)
+		if e != nil {
+			err = e
+		}
+		return int32(n)
+	}
+	i64 := func(s string) int64 {
+		n, e := strconv.ParseInt(s, 10, 64)
+		if e != nil {
+			err = e
+		}
+		return n
+	}
+	h := func(s string) []byte {
+		b, e := unhx(s)
+		if e != nil {
+			err = e
+		}
+		return b
+	}
+	switch {
+	case t[0] == "none" && len(t) == 1:
+	case t[0] == "unstaking" && len(t) == 2, t[0] == "contract" && len(t) == 2:
+		p.a = h(t[1])
+	case t[0] == "voting" && len(t) == 3:
+		p.a, p.choice = h(t[1]), i32(t[2])
+	case t[0] == "setdoc" && len(t) == 3:
+		p.a, p.b = h(t[1]), h(t[2])
+	case t[0] == "withdraw" && len(t) == 2:
+		p.req, err = uint256.FromDecimal(t[1])
+	case t[0] == "proposal" && len(t) >= 7:
+		p.a, p.start, p.period, p.applying, p.optType = h(t[1]), i64(t[2]), i64(t[3]), i64(t[4]), i32(t[5])
+		k, e := strconv.Atoi(t[6])
+		if e != nil || len(t) != 7+k {
+			return p, bad
+		}
+		for _, o := range t[7:] {
+			p.opts = append(p.opts, h(o))
+		}
+	default:
+		return p, bad
+	}
+	return p, err
+}
+
+func parseSpec(t []string) (*spec, error) {
+	if len(t) < 12 {
+		return nil, fmt.Errorf("short tx %v", t)
+	}
+	s := &spec{}
+	var err error
+	keep := func(e error) {
+		if e != nil && err == nil {
+			err = e
+		}
+	}
+	var e error
+	s.chain, e = unhx(t[0])
+	keep(e)
+	v, e := strconv.ParseUint(t[1], 10, 32)
+	keep(e)
+	s.ver = uint32(v)
+	s.time, e = strconv.ParseInt(t[2], 10, 64)
+	keep(e)
+	s.nonce, e = strconv.ParseUint(t[3], 10, 64)
+	keep(e)
+	s.from, e = unhx(t[4])
+	keep(e)
+	s.to, e = unhx(t[5])
+	keep(e)
+	s.amt, e = uint256.FromDecimal(t[6])
+	keep(e)
+	s.gas, e = strconv.ParseUint(t[7], 10, 64)
+	keep(e)
+	s.gp, e = uint256.FromDecimal(t[8])
+	keep(e)
+	ty, e := strconv.ParseInt(t[9], 10, 32)
+	keep(e)
+	s.typ = int32(ty)
+	s.sig, e = unhx(t[10])
+	keep(e)
+	s.pl, e = parsePayload(t[11:])
+	keep(e)
+	return s, err
+}
+
+// build the real transaction object.
+func (s *spec) build() *ctrlertypes.Trx {
+	tx := &ctrlertypes.Trx{Version: s.ver, Time: s.time, Nonce: s.nonce, From: append([]byte{}, s.from...),
+		To: append([]byte{}, s.to...), Amount: s.amt.Clone(), Gas: s.gas, GasPrice: s.gp.Clone(), Type: s.typ}
+	if len(s.sig) > 0 {
+		tx.Sig = append([]byte{}, s.sig...)
+	}
+	p := &s.pl
+	switch p.kind {
+	case "none":
+		// fromProto leaves Payload nil for transfer/staking; clients build the empty structs. Both occur.
+		if s.nonce%2 == 1 && s.typ == ctrlertypes.TRX_TRANSFER {
+			tx.Payload = &ctrlertypes.TrxPayloadAssetTransfer{}
+		} else if s.nonce%2 == 1 && s.typ == ctrlertypes.TRX_STAKING {
+			tx.Payload = &ctrlertypes.TrxPayloadStaking{}
+		}
+	case "unstaking":
+		tx.Payload = &ctrlertypes.TrxPayloadUnstaking{TxHash: append([]byte{}, p.a...)}
+	case "voting":
+		tx.Payload = &ctrlertypes.TrxPayloadVoting{TxHash: append([]byte{}, p.a...), Choice: p.choice}
+	case "contract":
+		tx.Payload = &ctrlertypes.TrxPayloadContract{Data: append([]byte{}, p.a...)}
+	case "setdoc":
+		tx.Payload = &ctrlertypes.TrxPayloadSetDoc{Name: string(p.a), URL: string(p.b)}
+	case "withdraw":
+		tx.Payload = &ctrlertypes.TrxPayloadWithdraw{ReqAmt: p.req.Clone()}
+	case "proposal":
+		var opts [][]byte
+		for _, o := range p.opts {
+			opts = append(opts, append([]byte{}, o...))
+		}
+		tx.Payload = &ctrlertypes.TrxPayloadProposal{Message: string(p.a), StartVotingHeight: p.start,
+			VotingPeriodBlocks: p.period, ApplyingHeight: p.applying, OptType: p.optType, Options: opts}
+	}
+	return tx
+}
+
+// ---------------------------------------------------------------------------------------------
+// real code
+
+func realPre(s *spec) (out []byte, err error) {
+	defer func() {
+		if e := recover(); e != nil {
+			err = fmt.Errorf("panic %v", e)
+		}
+	}()
+	tx := s.build()
+	sigBefore := append([]byte{}, tx.Sig...)
+	bz, xerr := ctrlertypes.PreImageToSignTrxRLP(tx, string(s.chain))
+	if xerr != nil {
+		return nil, xerr
+	}
+	if !bytes.Equal(sigBefore, tx.Sig) {
+		return nil, fmt.Errorf("PreImageToSignTrxRLP did not restore tx.Sig")
+	}
+	return bz, nil
+}
+
+func realEnc(s *spec) (out []byte, err error) {
+	defer func() {
+		if e := recover(); e != nil {
+			err = fmt.Errorf("panic %v", e)
+		}
+	}()
+	return rlp.EncodeToBytes(s.build())
+}
+
+// realVerify: VerifyTrxRLP on the in-memory object and on its Encode/Decode round trip.
+// mem/wire: "accept", "reject", wire also "unencodable" / "undecodable".
+func realVerify(s *spec, withWire bool) (mem, wire string) {
+	defer func() {
+		if e := recover(); e != nil {
+			if mem == "" {
+				mem = fmt.Sprintf("panic %v", e)
+			} else {
+				wire = fmt.Sprintf("panic %v", e)
+			}
+		}
+	}()
+	tx := s.build()
+	if _, _, xerr := ctrlertypes.VerifyTrxRLP(tx, string(s.chain)); xerr == nil {
+		mem = "accept"
+	} else {
+		mem = "reject"
+	}
+	if !withWire {
+		return mem, "-"
+	}
+	bz, xerr := tx.Encode()
+	if xerr != nil {
+		return mem, "unencodable"
+	}
+	tx2 := &ctrlertypes.Trx{}
+	if xerr := tx2.Decode(bz); xerr != nil {
+		return mem, "undecodable"
+	}
+	if _, _, xerr := ctrlertypes.VerifyTrxRLP(tx2, string(s.chain)); xerr == nil {
+		return mem, "accept"
+	}
+	return mem, "reject"
+}
+
+var curveN, _ = new(big.Int).SetString("FFFFFFFFFFFFFFFFFFFFFFFFFFFFFFFEBAAEDCE6AF48A03BBFD25E8CD0364141", 16)
+
+func keyAddr(key []byte) ([]byte, error) {
+	prv, err := crypto.ImportPrvKey(key)
+	if err != nil {
+		return nil, err
+	}
+	return crypto.Pub2Addr(&prv.PublicKey), nil
+}
+
+func signWith(key []byte, s *spec) ([]byte, error) {
+	prv, err := crypto.ImportPrvKey(key)
+	if err != nil {
+		return nil, err
+	}
+	pre, err := realPre(s)
+	if err != nil {
+		return nil, err
+	}
+	return crypto.Sign(pre, prv)
+}
+
+// applySigMut derives the signature bytes the mutant carries.
+func applySigMut(sig []byte, sigmut string, b *spec) ([]byte, error) {
+	out := append([]byte{}, sig...)
+	switch {
+	case sigmut == "none":
+	case strings.HasPrefix(sigmut, "flip:"):
+		i, err := strconv.Atoi(sigmut[5:])
+		if err != nil || i < 0 || i >= len(out)*8 {
+			return nil, fmt.Errorf("bad sigmut %s", sigmut)
+		}
+		out[i/8] ^= 1 << uint(i%8)
+	case sigmut == "twin": // (r, n-s, v^1): the other signature of the same message by the same key
+		if len(out) != 65 {
+			return nil, fmt.Errorf("twin needs 65 bytes")
+		}
+		sv := new(big.Int).SetBytes(out[32:64])
+		sv.Sub(curveN, sv)
+		sv.FillBytes(out[32:64])
+		out[64] ^= 1
+	case sigmut == "zero":
+		out = make([]byte, 65)
+	case sigmut == "trunc":
+		out = out[:64]
+	case sigmut == "ext":
+		out = append(out, 0)
+	case sigmut == "empty":
+		out = nil
+	case strings.HasPrefix(sigmut, "other:"): // a valid signature over the mutant's own pre-image by another key
+		k, err := hex.DecodeString(sigmut[6:])
+		if err != nil {
+			return nil, err
+		}
+		return signWith(k, b)
+	default:
+		return nil, fmt.Errorf("bad sigmut %s", sigmut)
+	}
+	return out, nil
+}
+
+type monOut struct {
+	line          string // what the Lean driver must print
+	orig          string // verdict on the original (must be accept)
+	mem, wire     string
+	preSame       bool
+	fieldsSame    bool
+	chainSame     bool
+	excludedChain bool
+	err           string
+}
+
+func containsSep(c []byte) bool { return bytes.Contains(c, []byte(sepStr)) }
+
+func sd(b bool) string {
+	if b {
+		return "same"
+	}
+	return "diff"
+}
+
+// runMon evaluates one `mon` line on the real code.
+func runMon(ws []string) monOut {
+	var o monOut
+	parts := splitSlash(ws[1:])
+	if len(parts) != 3 || len(parts[0]) != 3 {
+		o.err = "bad mon line"
+		return o
+	}
+	key, err := hex.DecodeString(parts[0][1])
+	if err != nil {
+		o.err = err.Error()
+		return o
+	}
+	sigmut := parts[0][2]
+	a, err := parseSpec(parts[1])
+	if err != nil {
+		o.err = err.Error()
+		return o
+	}
+	b, err := parseSpec(parts[2])
+	if err != nil {
+		o.err = err.Error()
+		return o
+	}
+	a.sig, b.sig = nil, nil
+	sig, err := signWith(key, a)
+	if err != nil {
+		o.err = err.Error()
+		return o
+	}
+	a.sig = sig
+	o.orig, _ = realVerify(a, false)
+	b.sig, err = applySigMut(sig, sigmut, b)
+	if err != nil {
+		o.err = err.Error()
+		return o
+	}
+	o.mem, o.wire = realVerify(b, true)
+	pa, err1 := realPre(a)
+	pb, err2 := realPre(b)
+	if err1 != nil || err2 != nil {
+		o.err = fmt.Sprintf("pre-image failed: %v %v", err1, err2)
+		return o
+	}
+	o.preSame = bytes.Equal(pa, pb)
+	o.fieldsSame = a.signedTokens() == b.signedTokens()
+	o.chainSame = bytes.Equal(a.chain, b.chain)
+	o.excludedChain = containsSep(a.chain) || containsSep(b.chain)
+	o.line = fmt.Sprintf("pre=%s fields=%s chain=%s", sd(o.preSame), sd(o.fieldsSame), sd(o.chainSame))
+	return o
+}
+
+func splitSlash(ws []string) [][]string {
+	out := [][]string{{}}
+	for _, w := range ws {
+		if w == "/" {
+			out = append(out, []string{})
+		} else {
+			out[len(out)-1] = append(out[len(out)-1], w)
+		}
+	}
+	return out
+}
+
+// ---------------------------------------------------------------------------------------------
+// generators
+
+func pow2(k uint) *uint256.Int { return new(uint256.Int).Lsh(uint256.NewInt(1), k) }
+func pow2m1(k uint) *uint256.Int {
+	if k == 256 {
+		return new(uint256.Int).Not(uint256.NewInt(0))
+	}
+	return new(uint256.Int).Sub(pow2(k), uint256.NewInt(1))
+}
+
+func genU64(r *rng.R) uint64 {
+	pool := []uint64{0, 1, 127, 128, 255, 256, 65535, 65536, 1<<32 - 1, 1 << 32, 1<<63 - 1, 1 << 63, 1<<64 - 1, 55, 56}
+	switch r.Pick(5, 2, 2) {
+	case 0:
+		return pool[r.Intn(len(pool))]
+	case 1:
+		return r.U64() >> uint(r.Intn(64))
+	}
+	return r.U64()
+}
+
+func genI64(r *rng.R) int64 {
+	pool := []int64{0, 1, -1, 127, 128, 255, 256, -128, -256, 1<<32 - 1, 1 << 32, 1<<63 - 1, -1 << 63, -1<<63 + 1, 1700000000000000000}
+	switch r.Pick(5, 2, 2) {
+	case 0:
+		return pool[r.Intn(len(pool))]
+	case 1:
+		return int64(r.U64() >> uint(1+r.Intn(63)))
+	}
+	return int64(r.U64())
+}
+
+func genI32(r *rng.R) int32 {
+	pool := []int32{0, 1, 2, -1, 127, 128, 255, 256, -128, 1<<31 - 1, -1 << 31, -1<<31 + 1, 65536}
+	if r.Chance(60) {
+		return pool[r.Intn(len(pool))]
+	}
+	return int32(r.U64())
+}
+
+func genU32(r *rng.R) uint32 {
+	pool := []uint32{0, 1, 127, 128, 255, 256, 65535, 65536, 1<<32 - 1, 1 << 31}
+	if r.Chance(60) {
+		return pool[r.Intn(len(pool))]
+	}
+	return uint32(r.U64())
+}
+
+func genU256(r *rng.R) *uint256.Int {
+	pool := []*uint256.Int{uint256.NewInt(0), uint256.NewInt(1), uint256.NewInt(127), uint256.NewInt(128),
+		uint256.NewInt(255), uint256.NewInt(256), pow2m1(64), pow2(64), pow2m1(255), pow2(255), pow2m1(256),
+		uint256.NewInt(1000000000000000000), uint256.NewInt(10000000000), pow2(248), pow2m1(248)}
+	if r.Chance(55) {
+		return pool[r.Intn(len(pool))].Clone()
+	}
+	n := r.Range(0, 32)
+	return new(uint256.Int).SetBytes(r.Bytes(n))
+}
+
+func genBytes(r *rng.R, thorough bool) []byte {
+	switch r.Pick(4, 3, 3, 5, 1) {
+	case 0: // single byte around the 0x80 rule
+		one := []byte{0x00, 0x01, 0x7f, 0x80, 0x81, 0xff, 0xc0, 0xb7}
+		return []byte{one[r.Intn(len(one))]}
+	case 1:
+		return []byte{}
+	case 2:
+		lens := []int{1, 2, 20, 32, 54, 55, 56, 57, 255, 256, 300}
+		return r.Bytes(lens[r.Intn(len(lens))])
+	case 3:
+		return r.Bytes(r.Range(0, 70))
+	}
+	if thorough {
+		lens := []int{65535, 65536, 70000}
+		return r.Bytes(lens[r.Intn(len(lens))])
+	}
+	return r.Bytes(r.Range(250, 600))
+}
+
+func genAddr(r *rng.R, thorough bool) []byte {
+	if r.Chance(70) {
+		return r.Bytes(20)
+	}
+	return genBytes(r, thorough)
+}
+
+// text that protobuf accepts in a `string` field (valid UTF-8), so that the wire path is exercised too
+func genText(r *rng.R) []byte {
+	lens := []int{0, 1, 3, 10, 55, 56, 300}
+	n := lens[r.Intn(len(lens))]
+	b := make([]byte, n)
+	for i := range b {
+		b[i] = byte(32 + r.Intn(95))
+	}
+	if n > 0 && r.Chance(20) {
+		b[r.Intn(n)] = '\n'
+	}
+	return b
+}
+
+func genChain(r *rng.R) []byte {
+	pool := []string{"", "a", "mainnet", "testnet", "localnet0", "rigo-testnet-1", "tx_executor_test_chain",
+		strings.Repeat("c", 50), strings.Repeat("long-chain-id.", 22), "with)paren", "with\nnewline", "(", ")", "))",
+		") Signed Message:", " Signed Message:\n", ") Signed Message:\r\n", "\x19RIGO(", "9", "18", "x) Signed Message", "\xc0\xff\x80"}
+	if r.Chance(75) {
+		return []byte(pool[r.Intn(len(pool))])
+	}
+	return r.Bytes(r.Range(0, 60))
+}
+
+func genOpts(r *rng.R, thorough bool) [][]byte {
+	var n int
+	switch r.Pick(2, 3, 3, 1) {
+	case 0:
+		n = 0
+	case 1:
+		n = 1
+	case 2:
+		n = r.Range(2, 6)
+	default:
+		n = r.Range(7, 40)
+	}
+	var o [][]byte
+	for i := 0; i < n; i++ {
+		if r.Chance(50) {
+			o = append(o, []byte(fmt.Sprintf(`{"gasPrice":"%d"}`, r.Intn(1000))))
+		} else {
+			o = append(o, genBytes(r, false))
+		}
+	}
+	return o
+}
+
+var kinds = []string{"none", "none", "unstaking", "proposal", "voting", "contract", "setdoc", "withdraw"}
+var typeOfKind = map[string]int32{"unstaking": 3, "proposal": 4, "voting": 5, "contract": 6, "setdoc": 7, "withdraw": 8}
+
+func genPayload(r *rng.R, kind string, textOnly, thorough bool) payload {
+	p := payload{kind: kind}
+	str := func() []byte {
+		if textOnly || r.Chance(50) {
+			return genText(r)
+		}
+		return genBytes(r, thorough)
+	}
+	switch kind {
+	case "unstaking":
+		if r.Chance(60) {
+			p.a = r.Bytes(32)
+		} else {
+			p.a = genBytes(r, thorough)
+		}
+	case "voting":
+		if r.Chance(60) {
+			p.a = r.Bytes(32)
+		} else {
+			p.a = genBytes(r, thorough)
+		}
+		p.choice = genI32(r)
+	case "contract":
+		p.a = genBytes(r, thorough)
+	case "setdoc":
+		p.a, p.b = str(), str()
+	case "withdraw":
+		p.req = genU256(r)
+	case "proposal":
+		p.a = str()
+		p.start, p.period, p.applying, p.optType = genI64(r), genI64(r), genI64(r), genI32(r)
+		p.opts = genOpts(r, thorough)
+	}
+	return p
+}
+
+// genSpec: an arbitrary (not necessarily executor-valid) transaction.
+func genSpec(r *rng.R, thorough bool) *spec {
+	s := &spec{chain: genChain(r), ver: genU32(r), time: genI64(r), nonce: genU64(r), from: genAddr(r, thorough),
+		to: genAddr(r, thorough), amt: genU256(r), gas: genU64(r), gp: genU256(r)}
+	ti := r.Intn(8)
+	s.typ = int32(ti + 1)
+	kind := kinds[ti]
+	switch r.Pick(80, 10, 10) {
+	case 1: // type outside 1..8 (kept in memory only; fromProto rejects it)
+		s.typ = genI32(r)
+	case 2: // payload object of another kind than the type says
+		kind = kinds[r.Intn(8)]
+	}
+	s.pl = genPayload(r, kind, false, thorough)
+	if r.Chance(50) {
+		s.sig = r.Bytes(65)
+	} else if r.Chance(30) {
+		s.sig = genBytes(r, false)
+	}
+	if r.Chance(8) { // everything minimal: the whole list shorter than 56 bytes
+		s.from, s.to = genBytes(r, false)[:0], []byte{byte(r.Intn(256))}
+		s.amt, s.gp = uint256.NewInt(uint64(r.Intn(300))), uint256.NewInt(uint64(r.Intn(3)))
+		s.time, s.nonce, s.gas = int64(r.Intn(200)), uint64(r.Intn(200)), uint64(r.Intn(70000))
+	}
+	return s
+}
+
+// genBase: a well-formed transaction of the given type sent by addr (20-byte addresses, wire-encodable).
+func genBase(r *rng.R, ti int, addr []byte, thorough bool) *spec {
+	s := &spec{chain: genChain(r), ver: genU32(r), time: genI64(r), nonce: genU64(r), from: addr,
+		to: r.Bytes(20), amt: genU256(r), gas: genU64(r), gp: genU256(r), typ: int32(ti + 1)}
+	for containsSep(s.chain) {
+		s.chain = genChain(r)
+	}
+	s.pl = genPayload(r, kinds[ti], true, thorough)
+	return s
+}
+
+type mutant struct {
+	kind   string
+	sigmut string
+	b      *spec
+}
+
+func otherU64(r *rng.R, v uint64) uint64 {
+	for {
+		var n uint64
+		switch r.Pick(3, 3, 3) {
+		case 0:
+			n = v + 1
+		case 1:
+			n = v - 1
+		default:
+			n = genU64(r)
+		}
+		if n != v {
+			return n
+		}
+	}
+}
+
+func otherI64(r *rng.R, v int64) int64 {
+	for {
+		var n int64
+		switch r.Pick(3, 3, 2, 3) {
+		case 0:
+			n = v + 1
+		case 1:
+			n = v - 1
+		case 2:
+			n = -v
+		default:
+			n = genI64(r)
+		}
+		if n != v {
+			return n
+		}
+	}
+}
+
+func otherI32(r *rng.R, v int32) int32 {
+	for {
+		var n int32
+		switch r.Pick(3, 3, 2, 3) {
+		case 0:
+			n = v + 1
+		case 1:
+			n = v - 1
+		case 2:
+			n = -v
+		default:
+			n = genI32(r)
+		}
+		if n != v {
+			return n
+		}
+	}
+}
+
+func otherU256(r *rng.R, v *uint256.Int) *uint256.Int {
+	for {
+		var n *uint256.Int
+		switch r.Pick(3, 3, 2, 3) {
+		case 0:
+			n = new(uint256.Int).AddUint64(v, 1)
+		case 1:
+			n = new(uint256.Int).SubUint64(v, 1)
+		case 2:
+			n = new(uint256.Int).Lsh(v, 8) // same bytes plus a trailing zero byte
+		default:
+			n = genU256(r)
+		}
+		if !n.Eq(v) {
+			return n
+		}
+	}
+}
+
+func otherBytes(r *rng.R, v []byte, thorough bool) []byte {
+	for {
+		n := append([]byte{}, v...)
+		switch r.Pick(4, 2, 2, 2, 2) {
+		case 0:
+			if len(n) == 0 {
+				n = []byte{0}
+			} else {
+				n[r.Intn(len(n))] ^= 1 << uint(r.Intn(8))
+			}
+		case 1:
+			if len(n) > 0 {
+				n = n[:len(n)-1]
+			} else {
+				n = []byte{0x80}
+			}
+		case 2:
+			n = append(n, 0)
+		case 3:
+			n = append([]byte{0}, n...)
+		default:
+			n = genBytes(r, thorough)
+		}
+		if !bytes.Equal(n, v) {
+			return n
+		}
+	}
+}
+
+// otherText keeps protobuf-valid text (single ASCII substitutions / length changes)
+func otherText(r *rng.R, v []byte) []byte {
+	for {
+		n := append([]byte{}, v...)
+		switch r.Pick(4, 2, 2, 2) {
+		case 0:
+			if len(n) == 0 {
+				n = []byte{'x'}
+			} else {
+				n[r.Intn(len(n))] = byte(32 + r.Intn(95))
+			}
+		case 1:
+			if len(n) > 0 {
+				n = n[:len(n)-1]
+			} else {
+				n = []byte{' '}
+			}
+		case 2:
+			n = append(n, 'z')
+		default:
+			n = genText(r)
+		}
+		if !bytes.Equal(n, v) {
+			return n
+		}
+	}
+}
+
+func otherChain(r *rng.R, c []byte) []byte {
+	for {
+		var n []byte
+		switch r.Pick(2, 2, 2, 2, 1, 4) {
+		case 0:
+			n = append(append([]byte{}, c...), 'x')
+		case 1:
+			if len(c) > 0 {
+				n = append([]byte{}, c[:len(c)-1]...)
+			} else {
+				n = []byte("0")
+			}
+		case 2:
+			n = append([]byte{'('}, c...)
+		case 3:
+			n = bytes.ToUpper(c)
+		case 4:
+			n = []byte{}
+		default:
+			n = genChain(r)
+		}
+		if !bytes.Equal(n, c) && !containsSep(n) {
+			return n
+		}
+	}
+}
+
+// mutations derives the mutants of one signed base transaction.
+func mutations(r *rng.R, a *spec, attackerKey, attackerAddr []byte, thorough bool) []mutant {
+	var ms []mutant
+	add := func(kind, sigmut string, f func(b *spec)) {
+		b := a.clone()
+		f(b)
+		ms = append(ms, mutant{kind, sigmut, b})
+	}
+	fieldMuts := []struct {
+		kind string
+		f    func(b *spec)
+	}{
+		{"version", func(b *spec) { b.ver = uint32(otherU64(r, uint64(b.ver))) }},
+		{"time", func(b *spec) { b.time = otherI64(r, b.time) }},
+		{"nonce", func(b *spec) { b.nonce = otherU64(r, b.nonce) }},
+		{"to", func(b *spec) { b.to = otherBytes(r, b.to, false) }},
+		{"amount", func(b *spec) { b.amt = otherU256(r, b.amt) }},
+		{"gas", func(b *spec) { b.gas = otherU64(r, b.gas) }},
+		{"gasPrice", func(b *spec) { b.gp = otherU256(r, b.gp) }},
+	}
+	for _, fm := range fieldMuts {
+		if fm.kind == "version" {
+			add(fm.kind, "none", func(b *spec) {
+				for b.ver == a.ver {
+					fm.f(b)
+				}
+			})
+			continue
+		}
+		add(fm.kind, "none", fm.f)
+	}
+	// claimed sender
+	add("from-attacker", "none", func(b *spec) { b.from = append([]byte{}, attackerAddr...) })
+	add("from-other", "none", func(b *spec) { b.from = otherBytes(r, b.from, false) })
+	// a valid signature by somebody else while From still names the victim
+	add("sig-other-key", "other:"+hex.EncodeToString(attackerKey), func(b *spec) {})
+	// boundary shift between adjacent byte-string fields (what a non-prefix-free code would allow)
+	add("shift-from-to", "none", func(b *spec) {
+		k := r.Range(1, len(b.from))
+		b.to = append(append([]byte{}, b.from[len(b.from)-k:]...), b.to...)
+		b.from = b.from[:len(b.from)-k]
+	})
+	// type
+	switch a.pl.kind {
+	case "none":
+		add("type", "none", func(b *spec) { b.typ = 3 - b.typ }) // transfer <-> staking
+	case "unstaking":
+		add("type", "none", func(b *spec) { b.typ = 6; b.pl.kind = "contract" }) // same payload bytes, other type
+	case "contract":
+		add("type", "none", func(b *spec) { b.typ = 3; b.pl.kind = "unstaking" })
+	case "withdraw":
+		add("type", "none", func(b *spec) { b.typ = 6; b.pl = payload{kind: "contract", a: b.pl.req.Bytes()} })
+	default:
+		add("type", "none", func(b *spec) { b.typ = otherI32(r, b.typ) })
+	}
+	add("type-any", "none", func(b *spec) { b.typ = otherI32(r, b.typ) })
+	// payload fields
+	switch a.pl.kind {
+	case "unstaking":
+		add("payload.txhash", "none", func(b *spec) { b.pl.a = otherBytes(r, b.pl.a, false) })
+	case "voting":
+		add("payload.txhash", "none", func(b *spec) { b.pl.a = otherBytes(r, b.pl.a, false) })
+		add("payload.choice", "none", func(b *spec) { b.pl.choice = otherI32(r, b.pl.choice) })
+	case "contract":
+		add("payload.data", "none", func(b *spec) { b.pl.a = otherBytes(r, b.pl.a, thorough) })
+	case "setdoc":
+		add("payload.name", "none", func(b *spec) { b.pl.a = otherText(r, b.pl.a) })
+		add("payload.url", "none", func(b *spec) { b.pl.b = otherText(r, b.pl.b) })
+		if len(a.pl.a)+len(a.pl.b) > 0 {
+			add("payload.shift-name-url", "none", func(b *spec) {
+				all := append(append([]byte{}, b.pl.a...), b.pl.b...)
+				k := len(b.pl.a)
+				for k == len(b.pl.a) {
+					k = r.Range(0, len(all))
+				}
+				b.pl.a, b.pl.b = all[:k], all[k:]
+			})
+		}
+	case "withdraw":
+		add("payload.reqAmt", "none", func(b *spec) { b.pl.req = otherU256(r, b.pl.req) })
+	case "proposal":
+		add("payload.message", "none", func(b *spec) { b.pl.a = otherText(r, b.pl.a) })
+		add("payload.start", "none", func(b *spec) { b.pl.start = otherI64(r, b.pl.start) })
+		add("payload.period", "none", func(b *spec) { b.pl.period = otherI64(r, b.pl.period) })
+		add("payload.applying", "none", func(b *spec) { b.pl.applying = otherI64(r, b.pl.applying) })
+		add("payload.optType", "none", func(b *spec) { b.pl.optType = otherI32(r, b.pl.optType) })
+		add("payload.options", "none", func(b *spec) {
+			o := b.pl.opts
+			switch {
+			case len(o) == 0:
+				b.pl.opts = [][]byte{{}}
+			default:
+				i := r.Intn(len(o))
+				switch r.Pick(3, 2, 2, 2, 2) {
+				case 0:
+					o[i] = otherBytes(r, o[i], false)
+				case 1: // drop one
+					b.pl.opts = append(o[:i:i], o[i+1:]...)
+				case 2: // add one
+					b.pl.opts = append(o, genBytes(r, false))
+				case 3: // split one option in two (same concatenated bytes)
+					k := r.Range(0, len(o[i]))
+					n := append([][]byte{}, o[:i]...)
+					n = append(n, append([]byte{}, o[i][:k]...), append([]byte{}, o[i][k:]...))
+					b.pl.opts = append(n, o[i+1:]...)
+				default: // swap two / duplicate
+					if len(o) >= 2 && !bytes.Equal(o[0], o[len(o)-1]) {
+						o[0], o[len(o)-1] = o[len(o)-1], o[0]
+					} else {
+						b.pl.opts = append(o, append([]byte{}, o[0]...))
+					}
+				}
+			}
+		})
+		add("payload.swap-heights", "none", func(b *spec) {
+			if b.pl.start != b.pl.period {
+				b.pl.start, b.pl.period = b.pl.period, b.pl.start
+			} else {
+				b.pl.start++
+			}
+		})
+	}
+	// chain id
+	add("chain", "none", func(b *spec) { b.chain = otherChain(r, b.chain) })
+	// signature bytes
+	add("sig-flip", fmt.Sprintf("flip:%d", r.Intn(520)), func(b *spec) {})
+	add("sig-flip-v", fmt.Sprintf("flip:%d", 512+r.Intn(8)), func(b *spec) {})
+	for _, sm := range []string{"zero", "trunc", "ext", "empty"} {
+		if r.Chance(50) {
+			add("sig-"+sm, sm, func(b *spec) {})
+		}
+	}
+	add("sig-twin", "twin", func(b *spec) {})
+	// several fields at once
+	add("multi", "none", func(b *spec) {
+		n := r.Range(2, 4)
+		for i := 0; i < n; i++ {
+			fieldMuts[1+r.Intn(len(fieldMuts)-1)].f(b)
+		}
+		if r.Chance(30) {
+			b.chain = otherChain(r, b.chain)
+		}
+		if b.signedTokens() == a.signedTokens() && bytes.Equal(b.chain, a.chain) {
+			b.nonce++
+		}
+	})
+	// control: nothing changed
+	add("identity", "none", func(b *spec) {})
+	return ms
+}
+
+// collisionProbe builds the excluded point of WFChainId: chain ids c1 and c2 = c1 ++ sep ++ ... such
+// that (c1, contract call t1) and (c2, transfer t2) have the same signed bytes.
+func collisionProbe(r *rng.R, key, addr []byte) (string, error) {
+	c1 := []byte("mainnet")
+	t2 := &spec{chain: nil, ver: 1, time: genI64(r), nonce: uint64(r.Intn(1000)), from: addr, to: r.Bytes(20),
+		amt: pow2m1(100), gas: 100000, gp: uint256.NewInt(10000000000), typ: 1, pl: payload{kind: "none"}}
+	t2.nonce &^= 1 // nil payload object
+	r2, err := realEnc(t2)
+	if err != nil {
+		return "", err
+	}
+	tail := append([]byte(sepStr), []byte(strconv.Itoa(len(r2)))...)
+	tail = append(tail, r2...)
+	data := append(r.Bytes(r.Intn(5)), tail[:len(tail)-1]...) // r2 ends with 0x80 = t1's empty signature item
+	t1 := &spec{chain: c1, ver: 1, time: genI64(r), nonce: uint64(r.Intn(1000)), from: addr, to: r.Bytes(20),
+		amt: uint256.NewInt(0), gas: 3000000, gp: uint256.NewInt(10000000000), typ: 6, pl: payload{kind: "contract", a: data}}
+	r1, err := realEnc(t1)
+	if err != nil {
+		return "", err
+	}
+	if !bytes.HasSuffix(r1, tail) {
+		return "", fmt.Errorf("collision probe: construction failed")
+	}
+	c2 := append(append([]byte{}, c1...), []byte(sepStr)...)
+	c2 = append(c2, []byte(strconv.Itoa(len(r1)))...)
+	c2 = append(c2, r1[:len(r1)-len(tail)]...)
+	t2.chain = c2
+	return monLine("excluded-chainid", key, "none", t1, t2), nil
+}
+
+func monLine(kind string, key []byte, sigmut string, a, b *spec) string {
+	return fmt.Sprintf("mon %s %s %s / %s / %s", kind, hex.EncodeToString(key), sigmut,
+		strings.Join(a.tokens(), " "), strings.Join(b.tokens(), " "))
+}
+
+func genKey(r *rng.R) ([]byte, []byte) {
+	for {
+		k := r.Bytes(32)
+		if a, err := keyAddr(k); err == nil {
+			return k, a
+		}
+	}
+}
+
+// ---------------------------------------------------------------------------------------------
+
+func realLine(ws []string) (out string, mo *monOut) {
+	switch ws[0] {
+	case "pre", "enc":
+		s, err := parseSpec(ws[1:])
+		if err != nil {
+			return "bad-op", nil
+		}
+		var bz []byte
+		if ws[0] == "pre" {
+			bz, err = realPre(s)
+		} else {
+			bz, err = realEnc(s)
+		}
+		if err != nil {
+			return "error " + err.Error(), nil
+		}
+		return hx(bz), nil
+	case "mon":
+		o := runMon(ws)
+		if o.err != "" {
+			return "error " + o.err, &o
+		}
+		return o.line, &o
+	case "reset":
+		return "reset", nil
+	}
+	return "bad-op", nil
+}
+
+func nontrivial(s *spec) bool {
+	n := 0
+	for _, c := range []bool{s.ver != 0, s.time != 0, s.nonce != 0, len(s.from) > 0, len(s.to) > 0, !s.amt.IsZero(),
+		s.gas != 0, !s.gp.IsZero(), s.pl.kind != "none", len(s.chain) > 0} {
+		if c {
+			n++
+		}
+	}
+	return n >= 4
+}
+
+func short(s string) string {
+	if len(s) > 400 {
+		return s[:400] + "..."
+	}
+	return s
+}
+
+// Run is the stream entry point.
 func Run(seed uint64, tier, work, driver string, replay []string) *common.Result {
 	res := common.NewResult("rlp", seed, tier)
-	res.Error = "stream not implemented"
+	res.Rule = "a case is one line: `pre`/`enc` = one random or boundary transaction of one of the 8 types (type x payload-kind x " +
+		"boundary pools for every integer, 256-bit amount, byte-string length 0/1/55/56/255/256/300.., chain id incl. empty/50/300 bytes/embedded " +
+		"')' and newline) whose signed bytes / full RLP are computed by the real code and by the Lean model and compared byte for byte; " +
+		"`mon` = one signed base transaction plus one mutation (each signed field, each payload field, sender, chain id, signature bytes, several at once, " +
+		"identity control) judged by the real VerifyTrxRLP in memory and after an Encode/Decode round trip. " +
+		"distinct_nontrivial = distinct signed byte strings of transactions with at least 4 non-default fields plus distinct mutant lines"
+	thorough := tier == "thorough"
+	r := rng.New(seed)
+	nPre, nEnc, nBase := 6000, 1500, 900
+	if thorough {
+		nPre, nEnc, nBase = 150000, 40000, 25000
+	}
+	var lines []string
+	if replay != nil {
+		lines = replay
+	} else {
+		for i := 0; i < nPre; i++ {
+			lines = append(lines, "pre "+strings.Join(genSpec(r.Fork(), thorough).tokens(), " "))
+		}
+		for i := 0; i < nEnc; i++ {
+			lines = append(lines, "enc "+strings.Join(genSpec(r.Fork(), thorough).tokens(), " "))
+		}
+		for i := 0; i < nBase; i++ {
+			rr := r.Fork()
+			key, addr := genKey(rr)
+			akey, aaddr := genKey(rr)
+			a := genBase(rr, i%8, addr, thorough)
+			for _, m := range mutations(rr, a, akey, aaddr, thorough) {
+				lines = append(lines, monLine(m.kind, key, m.sigmut, a, m.b))
+			}
+		}
+		for i := 0; i < 5; i++ {
+			rr := r.Fork()
+			key, addr := genKey(rr)
+			l, err := collisionProbe(rr, key, addr)
+			if err != nil {
+				res.Error = err.Error()
+				return res
+			}
+			lines = append(lines, l)
+		}
+	}
+
+	distinct := common.Distinct{}
+	realOut := make([]string, len(lines))
+	violate := func(kind, detail, line string) {
+		if len(res.Violations) < 20 {
+			res.Violations = append(res.Violations, common.Violation{Property: "C03", Kind: kind, Detail: detail, Ops: []string{line}})
+		}
+	}
+	excluded := map[string]int{}
+	for i, l := range lines {
+		ws := strings.Fields(l)
+		if len(ws) == 0 {
+			continue
+		}
+		out, mo := realLine(ws)
+		realOut[i] = out
+		res.Evaluations++
+		res.Histories++
+		switch ws[0] {
+		case "pre", "enc":
+			s, err := parseSpec(ws[1:])
+			if err == nil {
+				res.Count(fmt.Sprintf("%s/type=%s/payload=%s", ws[0], typeClass(s.typ), s.pl.kind))
+				if ws[0] == "pre" && nontrivial(s) {
+					distinct.Add(out)
+				}
+			}
+			if strings.HasPrefix(out, "error") {
+				res.Count(ws[0] + "/error")
+			}
+		case "mon":
+			kind := ws[1]
+			if mo == nil || mo.err != "" {
+				res.Count("mon/" + kind + "/harness-error")
+				res.Notes = append(res.Notes, "mon line could not be evaluated: "+short(out))
+				continue
+			}
+			distinct.Add(l)
+			res.Count(fmt.Sprintf("mon/%s/mem=%s,wire=%s,pre=%s", kind, mo.mem, mo.wire, sd(mo.preSame)))
+			if mo.orig != "accept" {
+				violate("original-rejected", "VerifyTrxRLP rejects a transaction signed by the key of its sender: "+mo.orig, l)
+			}
+			changed := !mo.fieldsSame || !mo.chainSame
+			sigmut := strings.Fields(strings.SplitN(l, "/", 2)[0])[3]
+			accepted := mo.mem == "accept" || mo.wire == "accept"
+			panicked := strings.HasPrefix(mo.mem, "panic") || strings.HasPrefix(mo.wire, "panic")
+			switch {
+			case panicked:
+				violate("verify-panic", fmt.Sprintf("VerifyTrxRLP panicked on a %s mutant: mem=%s wire=%s", kind, mo.mem, mo.wire), l)
+			case mo.excludedChain:
+				// outside WFChainId: reported, not judged
+				excluded[fmt.Sprintf("pre=%s verdict mem=%s wire=%s", sd(mo.preSame), mo.mem, mo.wire)]++
+			case !changed && sigmut == "none":
+				if !accepted {
+					violate("original-rejected", "identity control rejected", l)
+				}
+			case !changed && sigmut == "twin":
+				// (r, n-s, v^1): same message, same signer. Not an alteration of any signed field.
+			case accepted:
+				violate("mutation-accepted", fmt.Sprintf("mutation %s (sigmut %s) of a signed transaction still verifies: mem=%s wire=%s pre-image %s",
+					kind, sigmut, mo.mem, mo.wire, sd(mo.preSame)), l)
+			}
+			if changed && mo.preSame && !mo.excludedChain {
+				violate("preimage-collision", fmt.Sprintf("mutation %s changes a signed field or the chain id but not the signed bytes", kind), l)
+			}
+			if !changed && !mo.preSame {
+				violate("preimage-unstable", "equal signed fields and chain id give different signed bytes", l)
+			}
+		}
+		if len(res.Samples) < 3 && (i%2500 == 0) {
+			res.Samples = append(res.Samples, short(l)+"  =>  "+short(out))
+		}
+	}
+	if len(lines) > 0 && len(res.Samples) < 4 {
+		res.Samples = append(res.Samples, short(lines[len(lines)-1])+"  =>  "+short(realOut[len(lines)-1]))
+	}
+	res.DistinctNontrivial = len(distinct)
+	for k, n := range excluded {
+		res.Count("excluded-chainid/" + k)
+		res.Notes = append(res.Notes, fmt.Sprintf("excluded chain id (contains %q), %d probes: a signature made for a contract call on chain \"mainnet\" "+
+			"is presented with a transfer on a chain whose id extends \"mainnet\" by the separator, a length and the head of the call's RLP: %s "+
+			"(not judged: WFChainId excludes it; Tendermint limits chain ids to 50 bytes, the colliding id needs > 70)", sepStr, n, k))
+	}
+
+	// Lean model on the same lines
+	modelOut, err := common.RunDriver(driver, "rlp", lines)
+	if err != nil {
+		res.Error = err.Error()
+		return res
+	}
+	if len(modelOut) != len(lines) {
+		res.Error = fmt.Sprintf("model printed %d lines for %d operations", len(modelOut), len(lines))
+		return res
+	}
+	for i, l := range lines {
+		if modelOut[i] != realOut[i] {
+			k := 0
+			for k < len(modelOut[i]) && k < len(realOut[i]) && modelOut[i][k] == realOut[i][k] {
+				k++
+			}
+			from := k - 40
+			if from < 0 {
+				from = 0
+			}
+			res.Disagreements = append(res.Disagreements, common.Disagreement{History: i, Index: 0, Op: short(l),
+				Impl:  fmt.Sprintf("[first difference at char %d] ...%s", k, short(realOut[i][from:])),
+				Model: fmt.Sprintf("[first difference at char %d] ...%s", k, short(modelOut[i][from:])), Ops: []string{l}})
+			if len(res.Disagreements) >= 5 {
+				break
+			}
+		}
+	}
 	return res
+}
+
+func typeClass(t int32) string {
+	if t >= 1 && t <= 8 {
+		return strconv.Itoa(int(t))
+	}
+	if t < 0 {
+		return "neg"
+	}
+	return "other"
 }
